@@ -11,6 +11,7 @@ import (
 	"go/constant"
 	"go/token"
 	"go/types"
+	"os"
 	"sort"
 	"strings"
 
@@ -35,6 +36,23 @@ type pf struct {
 
 func pAnd(a, b *pf) *pf { return &pf{op: '&', l: a, r: b} }
 func pNot(a *pf) *pf    { return &pf{op: '!', l: a} }
+
+func (p *pf) String() string {
+	if p == nil {
+		return "<nil>"
+	}
+	switch p.op {
+	case 'a':
+		return "[" + p.atom + "]"
+	case 't':
+		return "T"
+	case 'f':
+		return "F"
+	case '!':
+		return "!" + p.l.String()
+	}
+	return "(" + p.l.String() + " " + string(p.op) + " " + p.r.String() + ")"
+}
 
 func (p *pf) atoms(out map[string]bool) {
 	switch p.op {
@@ -82,6 +100,7 @@ type schemaGuards struct {
 	// flags kept as bits of an integer member: per member, per bit, the condition under which the bit is set
 	bits     map[*types.Var]map[uint64]*pf
 	bitsDone bool
+	busy     map[*types.Var]bool // multi-definition flags being expanded
 }
 
 // collectBits reads the definitions of the integer members of the analysed-schema record that are used as sets of
@@ -318,6 +337,15 @@ func guardSchema(c *Ctx) {
 			flags = append(flags, st.Field(i))
 		}
 	}
+	// flags kept as the bits of an integer member count as flags too (the member must be inherited like them)
+	g.collectBits()
+	nBits := 0
+	for i := 0; i < st.NumFields(); i++ {
+		if bits, ok := g.bits[st.Field(i)]; ok && len(bits) > 0 {
+			flags = append(flags, st.Field(i))
+			nBits += len(bits) - 1
+		}
+	}
 	byName := map[string]*types.Var{}
 	for _, f := range flags {
 		byName[f.Name()] = f
@@ -385,8 +413,8 @@ func guardSchema(c *Ctx) {
 		c.S.Decide(len(missing) == 0, "C20", "COV-INHERITS", inherits.QName(), c.P.Pos(inherits.Decl.Pos()),
 			fmt.Sprintf("all %d flags are copied from the analysis of the $ref target", len(flags)),
 			"flags not copied from the $ref target: "+strings.Join(missing, ", ")+" — a schema that is only a $ref classifies differently from the schema it refers to")
-		if len(flags) < 15 {
-			c.S.Undecided("C20", "COV-INHERITS", "floor", "-", fmt.Sprintf("only %d bool flags in AnalyzedSchema (expected 17)", len(flags)))
+		if len(flags)+nBits < 15 {
+			c.S.Undecided("C20", "COV-INHERITS", "floor", "-", fmt.Sprintf("only %d flags (bool members and bits of flag sets) in AnalyzedSchema (expected 17)", len(flags)+nBits))
 		}
 	}
 
@@ -513,10 +541,96 @@ func (g *schemaGuards) formulaOf(f *types.Var) *pf {
 		return nil
 	}
 	ds := g.defs[f]
+	if len(ds) > 1 {
+		return g.multiDefFormula(ds, 0)
+	}
 	if len(ds) != 1 {
 		return nil
 	}
 	return g.defFormula(ds[0], 0)
+}
+
+// multiDefFormula: a flag assigned at several places of one function, on paths that exclude each other (a guard
+// clause storing constants and returning, then the general case): the flag is the disjunction of (path ∧ value) over
+// the stores. The exclusion is checked on the truth table of the path conditions; anything else is not abstracted.
+func (g *schemaGuards) multiDefFormula(ds []flagDef, depth int) *pf {
+	if len(ds) > 4 {
+		return nil
+	}
+	var conds, vals []*pf
+	for _, d := range ds {
+		if d.fi != ds[0].fi || d.recv != ds[0].recv {
+			return nil
+		}
+		var cf *pf = &pf{op: 't'}
+		for _, cd := range d.conds {
+			if cd.Kind != core.CondBool {
+				continue
+			}
+			f := g.exprFormula(d.fi, cd.Expr, d.recv, depth)
+			if f == nil {
+				return nil
+			}
+			if cd.Neg {
+				f = pNot(f)
+			}
+			cf = pAnd(cf, f)
+		}
+		v := g.exprFormula(d.fi, d.rhs, d.recv, depth)
+		if v == nil {
+			return nil
+		}
+		conds, vals = append(conds, cf), append(vals, v)
+	}
+	atoms := map[string]bool{}
+	for _, cf := range conds {
+		cf.atoms(atoms)
+	}
+	names := make([]string, 0, len(atoms))
+	for a := range atoms {
+		names = append(names, a)
+	}
+	sort.Strings(names)
+	if len(names) > 14 {
+		return nil
+	}
+	for m := 0; m < 1<<len(names); m++ {
+		env := map[string]bool{}
+		for i, a := range names {
+			env[a] = m&(1<<i) != 0
+		}
+		n := 0
+		for _, cf := range conds {
+			if cf.eval(env) {
+				n++
+			}
+		}
+		if n > 1 {
+			return nil // two stores on one path: the later one wins, which this abstraction does not order
+		}
+	}
+	var res *pf
+	for i := range conds {
+		t := pAnd(conds[i], vals[i])
+		if res == nil {
+			res = t
+		} else {
+			res = &pf{op: '|', l: res, r: t}
+		}
+	}
+	return res
+}
+
+// closedFormula: every atom speaks about the schema under analysis (or is a flag), none about another value.
+func closedFormula(f *pf) bool {
+	atoms := map[string]bool{}
+	f.atoms(atoms)
+	for a := range atoms {
+		if !strings.HasPrefix(a, "$.") && !strings.HasPrefix(a, "len($.") && !strings.HasPrefix(a, "flag ") {
+			return false
+		}
+	}
+	return true
 }
 
 func (g *schemaGuards) defFormula(d flagDef, depth int) *pf {
@@ -640,6 +754,16 @@ func (g *schemaGuards) exprFormula(fi *core.FuncInfo, e ast.Expr, recv string, d
 				if sub != nil {
 					return sub
 				}
+			} else if len(ds) > 1 && !g.busy[fv] {
+				if g.busy == nil {
+					g.busy = map[*types.Var]bool{}
+				}
+				g.busy[fv] = true
+				sub := g.multiDefFormula(ds, depth+1)
+				delete(g.busy, fv)
+				if sub != nil && closedFormula(sub) {
+					return sub
+				}
 			}
 			return &pf{op: 'a', atom: "flag " + fv.Name()}
 		}
@@ -648,8 +772,8 @@ func (g *schemaGuards) exprFormula(fi *core.FuncInfo, e ast.Expr, recv string, d
 		// standing for the arguments
 		if _, isSel := core.Unparen(x.Fun).(*ast.SelectorExpr); !isSel {
 			if callee := g.c.P.StaticCallee(fi, x); callee != nil {
-				if cf := g.c.P.Funcs[callee]; cf != nil && cf.Decl.Recv == nil && cf.Decl.Body != nil && len(cf.Decl.Body.List) == 1 {
-					if ret, ok := cf.Decl.Body.List[0].(*ast.ReturnStmt); ok && len(ret.Results) == 1 {
+				if cf := g.c.P.Funcs[callee]; cf != nil && cf.Decl.Recv == nil && cf.Decl.Body != nil && returnsOneBool(callee) {
+					{
 						sig := callee.Type().(*types.Signature)
 						if g.subst == nil {
 							g.subst = map[types.Object]substArg{}
@@ -663,7 +787,7 @@ func (g *schemaGuards) exprFormula(fi *core.FuncInfo, e ast.Expr, recv string, d
 							g.subst[po] = substArg{fi, x.Args[i], recv}
 							bound = append(bound, po)
 						}
-						res := g.exprFormula(cf, ret.Results[0], "", depth+1)
+						res := g.bodyFormula(cf, "", depth+1)
 						for _, po := range bound {
 							delete(g.subst, po)
 						}
@@ -677,8 +801,8 @@ func (g *schemaGuards) exprFormula(fi *core.FuncInfo, e ast.Expr, recv string, d
 		// a.has(mask): a single-return boolean method of the same receiver with parameters standing for the arguments
 		if sel, ok := x.Fun.(*ast.SelectorExpr); ok && exprStr(sel.X) == recv && len(x.Args) > 0 {
 			if callee := g.c.P.StaticCallee(fi, x); callee != nil {
-				if cf := g.c.P.Funcs[callee]; cf != nil && cf.Decl.Body != nil && len(cf.Decl.Body.List) == 1 && cf.Decl.Recv != nil {
-					if ret, ok := cf.Decl.Body.List[0].(*ast.ReturnStmt); ok && len(ret.Results) == 1 && core.IsBool(g.c.info(cf).TypeOf(ret.Results[0])) {
+				if cf := g.c.P.Funcs[callee]; cf != nil && cf.Decl.Body != nil && cf.Decl.Recv != nil && returnsOneBool(callee) {
+					{
 						sig := callee.Type().(*types.Signature)
 						if g.subst == nil {
 							g.subst = map[types.Object]substArg{}
@@ -696,7 +820,7 @@ func (g *schemaGuards) exprFormula(fi *core.FuncInfo, e ast.Expr, recv string, d
 						if len(cf.Decl.Recv.List[0].Names) == 1 {
 							crecv = cf.Decl.Recv.List[0].Names[0].Name
 						}
-						res := g.exprFormula(cf, ret.Results[0], crecv, depth+1)
+						res := g.bodyFormula(cf, crecv, depth+1)
 						for _, po := range bound {
 							delete(g.subst, po)
 						}
@@ -710,13 +834,13 @@ func (g *schemaGuards) exprFormula(fi *core.FuncInfo, e ast.Expr, recv string, d
 		// a.isObjectType(): expand a single-return boolean method of the same receiver
 		if sel, ok := x.Fun.(*ast.SelectorExpr); ok && exprStr(sel.X) == recv && len(x.Args) == 0 {
 			if callee := g.c.P.StaticCallee(fi, x); callee != nil {
-				if cf := g.c.P.Funcs[callee]; cf != nil && len(cf.Decl.Body.List) == 1 {
-					if ret, ok := cf.Decl.Body.List[0].(*ast.ReturnStmt); ok && len(ret.Results) == 1 {
-						crecv := ""
-						if cf.Decl.Recv != nil && len(cf.Decl.Recv.List[0].Names) == 1 {
-							crecv = cf.Decl.Recv.List[0].Names[0].Name
-						}
-						return g.exprFormula(cf, ret.Results[0], crecv, depth+1)
+				if cf := g.c.P.Funcs[callee]; cf != nil && cf.Decl.Body != nil && returnsOneBool(callee) {
+					crecv := ""
+					if cf.Decl.Recv != nil && len(cf.Decl.Recv.List[0].Names) == 1 {
+						crecv = cf.Decl.Recv.List[0].Names[0].Name
+					}
+					if res := g.bodyFormula(cf, crecv, depth+1); res != nil {
+						return res
 					}
 				}
 			}
@@ -725,12 +849,105 @@ func (g *schemaGuards) exprFormula(fi *core.FuncInfo, e ast.Expr, recv string, d
 	return &pf{op: 'a', atom: g.canon(fi, e, recv)}
 }
 
+func returnsOneBool(f *types.Func) bool {
+	sig, ok := f.Type().(*types.Signature)
+	return ok && sig.Results().Len() == 1 && core.IsBool(sig.Results().At(0).Type())
+}
+
+// bodyFormula abstracts the body of a boolean helper: a sequence of guard clauses `if c { return v }`, definitions
+// of locals (resolved where they are used), searches `for _, x := range [...]T{e1, …} { if c(x) { return v } }` over
+// a literal list, and a final `return w` — as the chain ite(c1, v1, ite(c2, v2, … w)). Anything else: nil (opaque).
+func (g *schemaGuards) bodyFormula(cf *core.FuncInfo, crecv string, depth int) *pf {
+	stmts := cf.Decl.Body.List
+	info := g.c.info(cf)
+	ite := func(c, v, rest *pf) *pf {
+		if c == nil || v == nil || rest == nil {
+			return nil
+		}
+		return &pf{op: '|', l: pAnd(c, v), r: pAnd(pNot(c), rest)}
+	}
+	guardClause := func(st ast.Stmt) (cond, val ast.Expr, ok bool) {
+		ifs, isIf := st.(*ast.IfStmt)
+		if !isIf || ifs.Init != nil || ifs.Else != nil || len(ifs.Body.List) != 1 {
+			return nil, nil, false
+		}
+		ret, isRet := ifs.Body.List[0].(*ast.ReturnStmt)
+		if !isRet || len(ret.Results) != 1 {
+			return nil, nil, false
+		}
+		return ifs.Cond, ret.Results[0], true
+	}
+	var build func(i int) *pf
+	build = func(i int) *pf {
+		if i >= len(stmts) {
+			return nil
+		}
+		switch st := stmts[i].(type) {
+		case *ast.ReturnStmt:
+			if len(st.Results) != 1 {
+				return nil
+			}
+			return g.exprFormula(cf, st.Results[0], crecv, depth)
+		case *ast.AssignStmt:
+			if st.Tok != token.DEFINE {
+				return nil
+			}
+			for _, l := range st.Lhs {
+				if o := core.ObjOf(info, l); o == nil || len(g.c.P.Locals(cf).Defs[o]) != 1 {
+					return nil
+				}
+			}
+			return build(i + 1)
+		case *ast.IfStmt:
+			cond, val, ok := guardClause(st)
+			if !ok {
+				return nil
+			}
+			return ite(g.exprFormula(cf, cond, crecv, depth), g.exprFormula(cf, val, crecv, depth), build(i+1))
+		case *ast.RangeStmt:
+			lit, isLit := core.Unparen(st.X).(*ast.CompositeLit)
+			val, isId := st.Value.(*ast.Ident)
+			if !isLit || !isId || st.Tok != token.DEFINE || len(st.Body.List) != 1 || len(lit.Elts) == 0 || len(lit.Elts) > 16 {
+				return nil
+			}
+			if k, isK := st.Key.(*ast.Ident); st.Key != nil && (!isK || k.Name != "_") {
+				return nil
+			}
+			cond, ret, ok := guardClause(st.Body.List[0])
+			vo := info.Defs[val]
+			if !ok || vo == nil {
+				return nil
+			}
+			rest := build(i + 1)
+			if g.subst == nil {
+				g.subst = map[types.Object]substArg{}
+			}
+			for k := len(lit.Elts) - 1; k >= 0; k-- {
+				if _, isKV := lit.Elts[k].(*ast.KeyValueExpr); isKV {
+					return nil
+				}
+				g.subst[vo] = substArg{cf, lit.Elts[k], crecv}
+				rest = ite(g.exprFormula(cf, cond, crecv, depth), g.exprFormula(cf, ret, crecv, depth), rest)
+				delete(g.subst, vo)
+			}
+			return rest
+		}
+		return nil
+	}
+	return build(0)
+}
+
 // canon renders an expression with local aliases of receiver-rooted paths resolved, so that atoms from
 // different methods (and from code using local aliases) unify: `items != nil` with items := a.schema.Items
 // becomes "$.schema.Items != nil".
 func (g *schemaGuards) canon(fi *core.FuncInfo, e ast.Expr, recv string) string {
 	info := g.c.info(fi)
 	e = core.Unparen(e)
+	if id, isId := e.(*ast.Ident); isId {
+		if sub, ok := g.subst[core.ObjOf(info, id)]; ok {
+			return g.canon(sub.fi, sub.e, sub.recv)
+		}
+	}
 	if p := g.c.P.PathOf(fi, e, true); p != nil && p.Root != nil {
 		if id, ok := rootOfRecv(fi); ok && p.Root == info.Defs[id] {
 			return "$" + p.StepsString()
@@ -956,6 +1173,16 @@ func guardDocRules(c *Ctx) {
 	for _, pr := range [][2]string{{"IsSimpleArray", "IsArray"}, {"IsSimpleMap", "IsMap"}} {
 		if bf := g.formulaOf(byName[pr[1]]); bf != nil {
 			axioms["flag "+pr[0]] = bf
+		}
+	}
+	if os.Getenv("VERIF_DEBUG") == "doc" {
+		fmt.Fprintf(os.Stderr, "DOC-DEBUG complex = %s\n", f.String())
+		for _, n := range []string{"IsMap", "IsExtendedObject", "IsArray", "IsTuple", "IsTupleWithExtra", "IsKnownType"} {
+			if ff := g.formulaOf(byName[n]); ff != nil {
+				fmt.Fprintf(os.Stderr, "DOC-DEBUG %s = %s\n", n, ff.String())
+			} else {
+				fmt.Fprintf(os.Stderr, "DOC-DEBUG %s = <none> (%d defs)\n", n, len(g.defs[byName[n]]))
+			}
 		}
 	}
 	atoms := map[string]bool{}
